@@ -44,7 +44,7 @@ func newLifeDecorator(w *vs.World, srv *vs.Server) vs.LifeAdapter {
 		dynInformers:         w.DynInformers,
 		eventRecorder:        vs.NopRecorder{},
 		decoratorControllers: make(map[string]*decoratorController),
-		numWorkers:           1,
+		numWorkers:           vs.LifeWorkers(),
 		logger:               logr.Discard(),
 	}
 	return &lifeDecorator{mc: mc, cl: cl, sids: map[string]string{}}
